@@ -86,7 +86,7 @@ def existsArg (v : V) : Bool :=
 /-- matchExists -/
 def matchExists (d : Doc) (path : String) (v : V) : Res Unit :=
   let ex := existsArg v
-  let (value, multi) := All d (splitPath path) true true
+  let (value, multi) := All d (splitPath path) true false     -- not merged: an empty array is a value that exists
   let found : Bool :=
     if multi then
       match value with
@@ -401,7 +401,12 @@ def mOp (sch : SchemaEval) (d : Doc) (op path : String) (v : V) : Res Unit :=
         if query.isEmpty then notMatched else
         let (value, _) := All d (splitPath path) true true
         match value with
-        | .arr array => elemLoop (fun item => mProcess sch [("item", item)] query "item" false) array
+        | .arr array =>
+          -- a query on fields only (no operators) applies to embedded documents only
+          let fieldQuery := query.all fun (k, _) => !isOpKey k
+          elemLoop (fun item =>
+            if fieldQuery && !item.isDoc then notMatched
+            else mProcess sch [("item", item)] query "item" false) array
         | _ => notMatched
       | _ => .error .err
     else .error .err
